@@ -19,15 +19,28 @@ let q_of num den =
   let num, den = if den < 0 then (-num / g, -den / g) else (num / g, den / g) in
   { qnum = z_of_int num; qden = pos_of_int den }
 
+(* arbitrary-size decimal printing (path lengths over 2^-50-grained weights exceed 63 bits as num/den) *)
+let dbl ds c =
+  let rec go ds carry = match ds with
+    | [] -> if carry > 0 then [carry] else []
+    | d :: r -> let v = 2 * d + carry in (v mod 1_000_000_000) :: go r (v / 1_000_000_000) in
+  go ds c
+let rec digits_of_pos = function XH -> [1] | XO p -> dbl (digits_of_pos p) 0 | XI p -> dbl (digits_of_pos p) 1
+let string_of_pos p =
+  match List.rev (digits_of_pos p) with
+  | [] -> "0"
+  | d :: r -> String.concat "" (string_of_int d :: List.map (Printf.sprintf "%09d") r)
+let string_of_z = function Z0 -> "0" | Zpos p -> string_of_pos p | Zneg p -> "-" ^ string_of_pos p
+
 let buf = Buffer.create (1 lsl 16)
 let add_oq (o : oQ) =
   match o with
   | None -> Buffer.add_string buf " M"
   | Some x -> let r = qred x in
       Buffer.add_char buf ' ';
-      Buffer.add_string buf (string_of_int (int_of_z r.qnum));
+      Buffer.add_string buf (string_of_z r.qnum);
       Buffer.add_char buf '/';
-      Buffer.add_string buf (string_of_int (int_of_pos r.qden))
+      Buffer.add_string buf (string_of_pos r.qden)
 let print_matrix tag (d : oQ list list) =
   Buffer.clear buf; Buffer.add_string buf tag;
   List.iter (fun row -> List.iter add_oq row) d;
